@@ -16,8 +16,8 @@ PROPS = ["C01", "C02", "C03", "C04", "C08", "C19"]
 TRACE_KEYS = ("den", "p0", "fund0", "exact", "ev")
 
 DESIGN = {
-    "quick": [("MC_PamsMarket_quick", "MC_PamsMarket_quick.cfg", 600)],
-    "thorough": [("MC_PamsMarket_quick", "MC_PamsMarket_quick.cfg", 600),
+    "quick": [("MC_PamsMarket_quick", "MC_PamsMarket_quick.cfg", 600), ("MC_PamsMarket_zero", "MC_PamsMarket_zero.cfg", 600)],
+    "thorough": [("MC_PamsMarket_quick", "MC_PamsMarket_quick.cfg", 600), ("MC_PamsMarket_zero", "MC_PamsMarket_zero.cfg", 600),
                  ("MC_PamsMarket_medium", "MC_PamsMarket_medium.cfg", 1800),
                  ("MC_PamsMarket_thorough", "MC_PamsMarket_thorough.cfg", 3600)],
 }
@@ -53,6 +53,16 @@ def build_histories(tier, seed, prop):
     # deep books: heaps of three and more levels, cancels of non-best orders followed by partial sweeps
     for h in drive_book.generate(N_DEEP[tier], sub_seed(seed, "book-deep"), flavour="deep"):
         h["src"] = "random-deep"
+        hs.append(h)
+    for h in drive_book.generate(N_DEEP[tier] // 2, sub_seed(seed, "book-penny"), flavour="penny"):
+        h["src"] = "random-penny"
+        hs.append(h)
+    # deep books, rounds that touch only the head, then sweeps through several resting orders (no repairing cancels)
+    for h in drive_book.generate((N_DEEP[tier] * 3) // 5, sub_seed(seed, "book-sweep"), flavour="sweep"):
+        h["src"] = "random-sweep"
+        hs.append(h)
+    for h in drive_book.generate(N_DEEP[tier] // 2, sub_seed(seed, "book-jumpy"), flavour="jumpy"):
+        h["src"] = "random-jumpy"
         hs.append(h)
     try:
         from . import replay_book
@@ -145,7 +155,9 @@ def stats(hs):
                 if prev and all(b[0] != e["id"] for b in prev["book"]):
                     cls["cancels_of_nonresting"] += 1
                 sets["C04"].add(("can", e["id"], e["vol"], json.dumps(prev["book"]) if prev else ""))
-            elif k == "tick":
+            elif k in ("tick", "jump"):
+                if k == "jump":
+                    cls["clock_jumps"] = cls.get("clock_jumps", 0) + 1
                 cls["expiries"] += len(e["exp"])
                 if e["exp"]:
                     sets["C04"].add(("exp", json.dumps(e["exp"]), e["clock"]))
@@ -197,10 +209,23 @@ def check(prop, tier, seed, t0):
         models += tables_book.table_models()
     if prop == "C02":
         vds, n_eval, wall, lines = tables_book.comparison_verdicts()
-        for side, vd in zip(("buy", "sell"), vds):
+        for doc, vd in zip(lines, vds):
+            side = "%s/%s" % ("buy" if doc["buy"] else "sell", doc["scale"])
             extra_cases.append({"verdict": vd, "sig": {"src": "comparison-table", "side": side},
                                 "replay": {"group": "book", "table": "comparison", "side": side}})
         extra_cov["comparison_operator_evaluations"] = n_eval
+    if prop == "C04":
+        # run level: the runner must not accept an order handed in by an agent it does not name (TraceOwner)
+        from . import drive_run, group_run
+        sruns = drive_run.spoof_runs(40 if tier == "quick" else 1500, seed)
+        sv, _ = group_run.validate(sruns, "TraceOwner")
+        for i, r in enumerate(sruns):
+            extra_cases.append({"verdict": sv[i][1].get("C04", "ok"), "sig": {"src": "run:spoof"},
+                                "replay": {"group": "run", "cfg": r["cfg"], "seed": r["seed"], "scenario": None}})
+        extra_cov["run_level_spoofing_scenarios"] = {
+            "runs": len(sruns), "forged_orders_returned": sum(1 for r in sruns for e in r["ev"] if e["k"] == "ret"
+                                                              and any(b[0] == "o" and b[8] != e["a"] for b in e["batch"])),
+            "runs_refused_with_ValueError": sum(1 for r in sruns if r["abort"].startswith("ValueError"))}
     hs = build_histories(tier, seed, prop)
     verdicts, tlc_wall = validate(hs)
     cases = cases_for(prop, hs, verdicts) + extra_cases
@@ -222,7 +247,8 @@ def check(prop, tier, seed, t0):
         "states": sum(m["states"] for m in models), "transitions": sum(m["transitions"] for m in models),
         "traces_validated_against_impl": len(hs), "samples": samples,
         "evaluations": classes["events"], "distinct_nontrivial": nontriv[prop], "rule": RULES[prop],
-        "exhaustive": True, "design_models": models, "scenario_classes": classes, "trace_sources": srcs,
+        "exhaustive": True, "exhaustive_scope": "the bounded design models (TLC breadth-first search ran to completion); recorded traces are sampled",
+        "design_models": models, "scenario_classes": classes, "trace_sources": srcs,
         "ref_layer_differences": ref_diff, "desynchronised_traces": desync,
         "trace_validation_wall_s": round(tlc_wall, 1),
     }
@@ -244,6 +270,9 @@ ASSUMPTIONS = [
 def replay(prop, path):
     from . import book_session
     doc = json.load(open(path))
+    if doc["replay"].get("group") == "run":
+        from . import group_run
+        return group_run.replay(prop, path)
     if doc["replay"].get("table") == "comparison":
         from . import tables_book
         vds = tables_book.comparison_verdicts()[0]
